@@ -347,7 +347,7 @@ line:
 		}
 		while (tok.kind == TNUMBER)
 			scan(&tok);
-		scansetloc(newloc);
+		scansetloc(newloc, tok.loc.line);
 	} else if (strcmp(name, "error") == 0) {
 		error(&tok.loc, "#error directive is not implemented");
 	} else if (strcmp(name, "pragma") == 0) {
